@@ -30,17 +30,20 @@ def total_dim(units):
     return sum(u['n_dim'] for u in units)
 
 
-def make_population(units, n_ids, bare=False):
+def make_population(units, n_ids, bare=False, ctor_ids=None):
     models = []
     for u in units:
-        m = ps.make(u['kind'], u['n_dim'], n_ids)
+        m = ps.make(u['kind'], u['n_dim'], n_ids, ctor_ids)
         if u['cov']:
             m = chi.CovariatePopulationModel(
                 m, chi.LinearCovariateModel(n_cov=u['cov']))
         models.append(m)
     if bare and len(models) == 1:
         return models[0]
-    return chi.ComposedPopulationModel(models)
+    m = chi.ComposedPopulationModel(models)
+    if ctor_ids is not None:
+        m.set_n_ids(n_ids)
+    return m
 
 
 TIMES = [[1.0], [1.0, 2.5], [0.0, 2.5], [4.0]]
